@@ -26,7 +26,8 @@ RULE = ('histories over a pool of 13 trees (elisions, nested scopes, comments, t
         'the operation sequence.')
 ASSUMPTIONS = ['behaviour of a generator after it raised, and identity (as opposed to equality) of fragments, are not demanded']
 BUDGET_S = {'quick': 60, 'thorough': 600}
-REQUIRED_HITS = ['full', 'abandon', 'raise', 'shortcut', 'str', 'fingerprints_compared', 'Indentator()', 'Obfuscator()']
+REQUIRED_HITS = ['full', 'abandon', 'raise', 'shortcut', 'str', 'fingerprints_compared', 'Indentator()', 'Obfuscator()',
+                 'shortcut_history_step']
 FLOOR = {'quick': 200, 'thorough': 2000}
 
 TEXTS = [
@@ -471,13 +472,68 @@ def run(ctx):
             if ctx.out_of_time():
                 break
         ctx.extra['operation_pairs_seen__set'] = sorted('%s->%s' % p for p in pairs)
+        # histories of shortcut calls on source texts (valid and not)
+        import random
+        for h in range(ctx.per_shard(25, 400)):
+            sseed = rng.getrandbits(32)
+            hist, v = shortcut_history(ctx, random.Random(sseed), 24)
+            ctx.case(('shortcut_history', sseed), True)
+            for mech, detail in v[:1]:
+                ctx.violation(mech, {'shortcut_seed': sseed, 'length': 24}, detail)
         ctx.extra['constructor_counts'] = dict(ctors.counts)
     finally:
         ctors.remove()
         fp.remove()
 
 
+# texts for histories of shortcut calls: what a call could leave behind for the next one (a last token that
+# decides how the next '/' is read, a pending comment, a failure in the middle of a token) and what would notice
+SHORTCUT_TEXTS = ['a = b', '/re/.test(x)', 'x = 1 // trailing', 'x = /abc', 'f()', '/=/.exec(s)', 'a++', '/* lead */ y',
+                  'var s = "unterminated', 'if (a) {}', '/x/g', 'o = {}', '} stray', 'return_ //', 'a /', '/ 2 / 3',
+                  '[1, 2]', 'z /* open', 'k = 1;', "'use strict'\n/re/", 'this', 'while (0) ;', 'q = 1 /* c */']
+
+
+def shortcut_history(ctx, rng, length):
+    """[(which, text index, with_comments)] run in order; every result against the explicit calls"""
+    from calmjs.parse import es5
+    from calmjs.parse.parsers.es5 import parse
+    from calmjs.parse.unparsers.es5 import pretty_print, minify_print
+
+    def outcome(call):
+        try:
+            return call()
+        except Exception as e:
+            return 'raised %s: %s' % (type(e).__name__, str(e)[:80])
+    hist = [(rng.choice(['pretty', 'minify', 'tree']), rng.randrange(len(SHORTCUT_TEXTS)), rng.random() < 0.4)
+            for _ in range(length)]
+    viol = []
+    for step, (which, ti, wc) in enumerate(hist):
+        text = SHORTCUT_TEXTS[ti]
+        kw = {'with_comments': True} if wc else {}
+        if which == 'tree':
+            a = outcome(lambda: vtree.fingerprint(es5(text, **kw)))
+            b = outcome(lambda: vtree.fingerprint(parse(text, **kw)))
+        else:
+            f, g = (es5.pretty_print, pretty_print) if which == 'pretty' else (es5.minify_print, minify_print)
+            a = outcome(lambda: f(text, **kw))
+            b = outcome(lambda: g(parse(text, **kw)))
+        ctx.hit('shortcut_history_step')
+        if a != b:
+            viol.append(('C14:shortcut_differs_after_history:%s' % which,
+                         'step %d: es5.%s(%r%s) gives %r, the explicit parse-then-print %r; earlier calls: %r' % (
+                             step, which if which != 'tree' else '__call__', text, ', with_comments=True' if wc else '',
+                             str(a)[:80], str(b)[:80], [(w, SHORTCUT_TEXTS[t], c) for w, t, c in hist[max(0, step - 3):step]])))
+            break
+    return hist, viol
+
+
 def replay(ctx, witness):
+    if witness.get('shortcut_seed') is not None:
+        import random
+        hist, viol = shortcut_history(ctx, random.Random(witness['shortcut_seed']), witness['length'])
+        for mech, detail in viol:
+            ctx.violation(mech, witness, detail)
+        return
     fp = Failpoint().install()
     ctors = Ctors(ctx).install()
     try:
